@@ -251,6 +251,13 @@ def execute(pack, fc, hist, seed, pid=PID, ch=None, fixed=None, enc="direct"):
             viol = V("air-foreign", ckind, "between the previous return and the return of this call " + why)
             outcomes.append(kind + ":foreign")
             break
+        # ---- an acknowledgement is requested on the air iff the caller did not ask for no-ack
+        #      ("sent without waiting when no acknowledgement is requested"); resend() keeps the flag
+        wrong = [p for p in air if p.noack != (mode == "noack")]
+        if wrong:
+            viol = V("air-noack-flag", ckind, "data packet transmitted with NO_ACK=%s in %s mode" % (wrong[0].noack, mode))
+            outcomes.append(kind + ":flag")
+            break
         # ---- (c) list shape
         if kind == "L":
             if not isinstance(ret, list) or len(ret) != len(pls):
